@@ -277,7 +277,12 @@ func (c *RollingFileAppender) clearExpiredFiles() {
 		if entry.IsDir() {
 			continue
 		}
-		if !strings.HasPrefix(entry.Name(), c.FileName+".") {
+		suffix, ok := strings.CutPrefix(entry.Name(), c.FileName+".")
+		if !ok {
+			continue
+		}
+		// Only files this appender itself could have produced.
+		if _, err := time.Parse("20060102150405", suffix); err != nil {
 			continue
 		}
 		info, err := entry.Info()
